@@ -7,6 +7,7 @@ package cert
 //   T: seeded random concrete cases beyond the lattice, logged for validation by TLC (Trace_CertTrust.tla)
 
 import (
+	"sync/atomic"
 	"encoding/json"
 	"errors"
 	"fmt"
@@ -290,6 +291,11 @@ func c01Random(t *testing.T, res *vResult, n, ab int) {
 func TestVerif_C01(t *testing.T) {
 	res := vNewResult()
 	defer res.Write(t)
+	defer func() {
+		if atomic.LoadInt64(&ctNonCanonCount) > 0 {
+			res.Hit("presented:v2-details-not-canonical-as-signed")
+		}
+	}()
 	var plan c01Plan
 	vReadJSON(t, "c01_plan.json", &plan)
 	w := ctNewWorld(ctBase(1), ctSeedEmbed(0))
